@@ -95,4 +95,4 @@ def Grid_gamma(gamma_tag):
         g = 0.5 * (gamma[2] @ gamma[3] - gamma[3] @ gamma[2])
     else:
         raise ValueError('Unkown gamma structure', gamma_tag)
-    return g
+    return np.array(g)
